@@ -908,10 +908,11 @@ impl Property for C15 {
     fn generate(ctx: &mut Ctx<Self>) {
         let alpha = alphabet();
         let core = core_alphabet();
-        let stats: RefCell<BTreeMap<String, u64>> = RefCell::new(BTreeMap::new());
-        let note = |c: &Case| -> bool {
+        let stats: std::rc::Rc<RefCell<BTreeMap<String, u64>>> = std::rc::Rc::new(RefCell::new(BTreeMap::new()));
+        let stats2 = stats.clone();
+        let note = move |c: &Case| -> bool {
             let nt = nontrivial(c);
-            let mut s = stats.borrow_mut();
+            let mut s = stats2.borrow_mut();
             let mut add = |k: &str| *s.entry(k.to_string()).or_insert(0) += 1;
             add(&format!("length {}", match c.calls.len() { 0..=1 => "1", 2 => "2", 3 => "3", 4 => "4", 5..=8 => "5-8", _ => "9-12" }));
             if c.calls.iter().any(|c| matches!(c, Call::Nested(..))) {
@@ -968,7 +969,7 @@ impl Property for C15 {
         ctx.subspace(&format!("all histories of length {len} over the {m}-call core alphabet"), total, true);
         // --- random longer histories -----------------------------------------------------------------
         let strat = prop::collection::vec(prop::sample::select(alpha.clone()), 4..=12).prop_map(|calls| Case { calls });
-        ctx.run_strategy("random-histories", 1, ctx.tier.pick(10_000, 150_000), &strat, &note);
+        ctx.run_strategy("random-histories", 1, ctx.tier.pick(10_000, 150_000), &strat, note.clone());
         // histories biased towards disturbing calls followed by sensitive ones
         let dist: Vec<Call> = alpha.iter().copied().filter(disturbing).collect();
         let sens: Vec<Call> = alpha.iter().copied().filter(sensitive).collect();
@@ -994,8 +995,8 @@ impl Property for C15 {
                 }
                 Case { calls }
             });
-        ctx.run_strategy("random-disturb-then-observe", 2, ctx.tier.pick(10_000, 150_000), &strat, &note);
-        for (k, v) in stats.into_inner() {
+        ctx.run_strategy("random-disturb-then-observe", 2, ctx.tier.pick(10_000, 150_000), &strat, note.clone());
+        for (k, v) in stats.take() {
             ctx.class_n(&k, v);
         }
     }
@@ -1003,4 +1004,10 @@ impl Property for C15 {
 
 fn main() {
     engine::main::<C15>()
+}
+
+/// entry point of the libFuzzer target `fuzz/fuzz_targets/c15.rs`
+#[allow(dead_code)]
+pub fn fuzz(data: &[u8]) {
+    engine::fuzz_one::<C15>(data)
 }
